@@ -506,24 +506,39 @@ func (p *plugin) synchronize(ctx context.Context, pods []*PodSandbox, containers
 			podsToSend = podsToSend[podsPerMsg:]
 			ctrsToSend = ctrsToSend[ctrsPerMsg:]
 
-			if podsPerMsg > len(podsToSend) {
-				podsPerMsg = len(podsToSend)
-			}
-			if ctrsPerMsg > len(ctrsToSend) {
-				ctrsPerMsg = len(ctrsToSend)
-			}
+			podsPerMsg, ctrsPerMsg = clampObjsPerSyncMsg(podsPerMsg, ctrsPerMsg, len(podsToSend), len(ctrsToSend))
 		} else {
 			podsPerMsg, ctrsPerMsg, err = recalcObjsPerSyncMsg(podsPerMsg, ctrsPerMsg, err)
 			if err != nil {
 				p.close()
 				return nil, err
 			}
+			podsPerMsg, ctrsPerMsg = clampObjsPerSyncMsg(podsPerMsg, ctrsPerMsg, len(podsToSend), len(ctrsToSend))
 
 			log.Debugf(ctx, "oversized message, retrying in smaller chunks")
 		}
 	}
 
 	return rpl.Update, nil
+}
+
+// clampObjsPerSyncMsg limits the per-message object counts to what is left to
+// send, making sure that a message always carries something if anything is left.
+func clampObjsPerSyncMsg(pods, ctrs, podsLeft, ctrsLeft int) (int, int) {
+	if pods > podsLeft {
+		pods = podsLeft
+	}
+	if ctrs > ctrsLeft {
+		ctrs = ctrsLeft
+	}
+	if pods+ctrs == 0 {
+		if podsLeft > 0 {
+			pods = 1
+		} else if ctrsLeft > 0 {
+			ctrs = 1
+		}
+	}
+	return pods, ctrs
 }
 
 func recalcObjsPerSyncMsg(pods, ctrs int, err error) (int, int, error) {
